@@ -64,7 +64,7 @@ CONTRACT(process_fork)
 static pid_t process_fork(const int *except, size_t num_except)
   REQ_(except != NULL && num_except == 6 && !g.in_child && g.fork_stage == 0 && g.child_pid == 0 && !g.child_live)
   ASSIGNS(g)
-  ENS("C14/process_fork.ghost_sane", GHOST_SANE && G_ERR_SANE)
+  ENS("C14/process_fork.ghost_sane", GHOST_SANE && G_ERR_SANE && g.eintr_run == 0)
   ENS("C12/process_fork.parent_signal_mask_restored", IMPLIES(!g.in_child, g.sigmask == OLD(g.sigmask) && g.disp_default == OLD(g.disp_default) && g.cwd_id == OLD(g.cwd_id)))
   ENS("C05/process_fork.parent_descriptors_as_before", IMPLIES(!g.in_child, g.fds.open == OLD(g.fds.open) && g.fds.lib == OLD(g.fds.lib) && g.fds.cloexec == OLD(g.fds.cloexec) && g.fds.nonblock == OLD(g.fds.nonblock)))
   ENS("C04/process_fork.parent_never_sees_zero", IMPLIES(!g.in_child, RV != 0))
